@@ -117,6 +117,8 @@ def run(ctx):
             spec['stext'] = [('SUPP1', 'x'), ('SUPP2', 'y' + spec['delim'] + 'z')]
             if rng.random() < 0.4:
                 spec['stext_position'] = 'before_text'
+        if rng.random() < 0.6:
+            spec['pad_tail'] = 8          # the usual 8-byte CRC field after the last segment (bytes exist beyond DATA)
         raw, lay = fcsgen.build(spec)
         desc = layouts.describe(spec)
         with open(path, 'wb') as fh:
